@@ -12,7 +12,8 @@ import re
 import sys
 
 REPO = os.environ.get("VERIF_REPO", "/repo")
-OUT = os.path.join(os.path.dirname(os.path.abspath(__file__)), "..", "coq", "Gen", "Consts.v")
+# VERIF_COQ: the coq tree to write into (a private copy when a check runs against another checkout)
+OUT = os.path.join(os.environ.get("VERIF_COQ") or os.path.join(os.path.dirname(os.path.abspath(__file__)), "..", "coq"), "Gen", "Consts.v")
 
 # file -> list of constant names wanted (prefix for the Coq name, to avoid clashes such as PADDING)
 WANT = {
